@@ -22,6 +22,8 @@ import (
 	"sort"
 	"strconv"
 	"strings"
+	"sync"
+	"sync/atomic"
 	"testing"
 	"time"
 
@@ -323,6 +325,47 @@ func vpCase(t *vpToks) (res string) {
 				f := s.status(vpCluster(c), g, true)
 				out = append(out, vpStatus("P", f, p, vpCluster(c), g), vpStatus("F", f, f, vpCluster(c), g))
 			}
+		case "P":
+			// one goroutine per list, all started together, each decoding its own messages in order (the per-partition
+			// consumers of the offsets topic call processConsumerOffsetsMessage of the one module concurrently)
+			c := t.i64()
+			m := s.readers[c]
+			if m == nil {
+				panic("batch for a cluster without reader")
+			}
+			ngo := t.int()
+			lists := make([][]*sarama.ConsumerMessage, ngo)
+			for i := range lists {
+				for n := t.int(); n > 0; n-- {
+					order := t.i64()
+					key, value := t.hexb(), t.hexb()
+					lists[i] = append(lists[i], &sarama.ConsumerMessage{Topic: "__consumer_offsets", Partition: int32(i), Offset: order, Key: key, Value: value})
+				}
+			}
+			start := make(chan struct{})
+			var wg sync.WaitGroup
+			var panicked atomic.Value
+			for i := range lists {
+				wg.Add(1)
+				go func(msgs []*sarama.ConsumerMessage) {
+					defer wg.Done()
+					defer func() {
+						if r := recover(); r != nil {
+							panicked.Store(fmt.Sprint(r))
+						}
+					}()
+					<-start
+					for _, msg := range msgs {
+						m.processConsumerOffsetsMessage(msg)
+					}
+				}(lists[i])
+			}
+			close(start)
+			wg.Wait()
+			if v := panicked.Load(); v != nil {
+				panic("a decoding goroutine panicked: " + v.(string))
+			}
+			s.barrier()
 		case "L":
 			c := t.i64()
 			r := &protocol.StorageRequest{RequestType: protocol.StorageFetchConsumers, Cluster: vpCluster(c), Reply: make(chan interface{})}
